@@ -17,6 +17,8 @@ import DisjointImpls.Lemmas.ExpandLemmas
 import DisjointImpls.Lemmas.MatchSound
 import DisjointImpls.Lemmas.RevSubLemmas
 import DisjointImpls.Lemmas.GroupLemmas
+import DisjointImpls.Lemmas.FlatOrder
+import DisjointImpls.Props.C11
 open DI
 
 def rToSx : R → Sx
@@ -182,9 +184,12 @@ def handle (cmd : String) (args : List Sx) : Sx :=
             .list (e.2.1.idents.map (fun kx => .list [kx.1.1.toSx, kx.1.2.toSx, .str kx.2])),
             .list (e.2.1.payloads.map (fun row => .list (row.map (fun o => match o with | some p => .list [.sym "some", p.toSx] | none => .list [.sym "none"]))))])),
           -- hypothesis of C11_partition_acyclic evaluated on this input, and the conclusion of C11_partition_of_trace
-          boolSx (acyclicB items), boolSx (traceCovers items)]
-      | .unableToForm id => .list [.sym "unable", id.toSx]
-      | .panic e => .list [.sym "panic", .str (match e with | .unwrapNone => "unwrap-none" | .fuel => "fuel")]
+          boolSx (acyclicB items), boolSx (traceCovers items),
+          -- hypotheses of C05_flat_order_free_exec (acceptance and families do not depend on the block order)
+          boolSx (noNesting items), boolSx (flatWF items)]
+      | .unableToForm id => .list [.sym "unable", id.toSx, boolSx (noNesting items), boolSx (flatWF items)]
+      | .panic e => .list [.sym "panic", .str (match e with | .unwrapNone => "unwrap-none" | .fuel => "fuel"),
+          boolSx (noNesting items), boolSx (flatWF items)]
   | "rows", [rows] =>
       -- does some member's row generalise another's (code: `is_overlapping`, lib.rs:342-368)? list of offending ordered pairs
       let rs := match rows with
